@@ -313,6 +313,16 @@ var indexRE = regexp.MustCompile(`\[-?\d+\]`)
 // that is symbolic on the explored path is a number in the replay.
 func normIndex(s string) string { return indexRE.ReplaceAllString(s, "[symbolic]") }
 
+// Replay sets up the harness configuration and re-executes a recorded counterexample.
+func (P *Program) Replay(h *HarnessSpec, opts RunOpts, v *Violation) string {
+	P.Cfg = P.configFor(h, opts.Tier)
+	if err := P.SetReplacements(h.Replace); err != nil {
+		return "setup: " + err.Error()
+	}
+	P.ConcreteReplay(h, opts, v)
+	return v.Confirmed["engine_concrete"]
+}
+
 // ConcreteReplay re-executes the harness with the model values fixed.
 func (P *Program) ConcreteReplay(h *HarnessSpec, opts RunOpts, v *Violation) {
 	m, err := P.newMachine(h, opts, "")
